@@ -12,6 +12,8 @@ CFG = dict(
               "a freshly built assignment evaluates as the named entities of the model table say",
               "every set / statement / policy an accepted CRUD op created or changed is evaluated at once (wrapped in "
               "throw-away zz-* entities) against the model's content, with routes aimed at added and removed prefix entries",
+              "assignments built by accumulation (add after add / set / delete, delete-policies after add) evaluate as the "
+              "policies they list, in the listed order, with an rpki-validation policy first / in the middle / last",
               "delete_policy(preserve_statements=true) removes no statement; no delete_policy removes a statement "
               "another policy still references"],
     assumptions=["conditions of later statements may see the attributes as modified by earlier passed statements or the "
@@ -24,6 +26,9 @@ CFG = dict(
                  "a route without the attribute, as-path-length on a route without AS_PATH, RPKI with an origin that is "
                  "not the tail of an AS_SEQUENCE, prefix sets on non-IP NLRI: not judged",
                  "next-hop 'unchanged' may restore the received next hop or leave the current one",
+                 "the real evaluation is called the way the daemon calls it: the RpkiTable is passed to apply_import / "
+                 "apply_export only when the assignment's needs_rpki flag is set (daemon/src/table_manager.rs:708, "
+                 "daemon/src/event/mod.rs:3355), otherwise None; the reference interpreter always knows the VRPs",
                  "policy edits follow the daemon's protocol: a policy used by a per-peer assignment is refused by the "
                  "daemon before PolicyTable is called",
                  "order of policies after add_assignment and error codes of refused calls are not judged"],
@@ -51,7 +56,16 @@ CFG = dict(
                          # CRUD content probes: what an accepted op created / changed is evaluated at once
                          "crud:content-probes": 2000, "crud-probe:judged": 10000,
                          "crud:prefix:entry-removed": 60, "crud:prefix:default-route-entry-removed": 25,
-                         "crud:policy:delete:ok": 25, "crud:policy:delete-statements:ok": 25}),
+                         "crud:policy:delete:ok": 25, "crud:policy:delete-statements:ok": 25,
+                         # assignments built by several calls; rpki-validation conditions by route state
+                         "eval:accumulated-assignments": 300, "eval-accumulated:judged": 2500,
+                         "eval:accumulated:rpki-policy-listed-first": 100,
+                         "eval:accumulated:rpki-policy-listed-in-the-middle": 60,
+                         "eval:accumulated:rpki-policy-listed-last": 100, "crud:assignment:accumulated": 120,
+                         "rpki:program-with-rpki-condition:route-state:Valid": 900,
+                         "rpki:program-with-rpki-condition:route-state:Invalid": 2000,
+                         "rpki:program-with-rpki-condition:route-state:NotFound": 3000,
+                         "rpki:condition-state-equals-route-state": 2500}),
     quick=[e1("all", "c14", "debug", 1, 40), e1("all", "c14", "release", 1, 40)],
     thorough=[e1("unit", "c14", "debug", 2, 200, part="unit"),
               e1("unit-rel", "c14", "release", 2, 200, part="unit"),
